@@ -48,8 +48,12 @@ pub fn check(case: &Case, idx: &[Option<Meta>], exp: &Exp, rec: &RunRec) -> Vec<
                 note(&mut v, "C09", format!("deadlock: {}", m));
             }
         }
+        (Outcome::Cancelled, _) => {}
     }
-    let hung = matches!(rec.outcome, Outcome::Hung(_) | Outcome::Deadlock(_));
+    // a cancelled run (the harness dropped the macro's future at a pending point) is a prefix of the full run: nothing is
+    // demanded to have happened, but whatever happened must be a prefix of what the model says
+    let cancelled = rec.outcome == Outcome::Cancelled;
+    let hung = matches!(rec.outcome, Outcome::Hung(_) | Outcome::Deadlock(_) | Outcome::Cancelled);
 
     // ---- C03: step barrier over the whole log ---------------------------------------------
     let mut max_step: Option<(usize, u16)> = None;
@@ -127,8 +131,8 @@ pub fn check(case: &Case, idx: &[Option<Meta>], exp: &Exp, rec: &RunRec) -> Vec<
             oe.sort_unstable();
             ee.sort_unstable();
             // the panicking branch itself is exact (the model cut it); siblings / cancelled branches may be prefixes
-            let exact = !relaxed_step || (exp.panics && b.cut && !kind.is_async());
-            if hung {
+            let exact = !cancelled && (!relaxed_step || (exp.panics && b.cut && !kind.is_async()));
+            if hung && !cancelled {
                 continue;
             }
             if exact {
@@ -176,9 +180,11 @@ pub fn check(case: &Case, idx: &[Option<Meta>], exp: &Exp, rec: &RunRec) -> Vec<
                 note(&mut v, "C11", format!("step {}: block captures evaluated in order {:?}, model expects {:?}", k, oc, exp_caps));
             }
             let _ = panicked_in_caps;
+        } else if cancelled && (oc.len() > exp_caps.len() || oc[..] != exp_caps[..oc.len()]) {
+            note(&mut v, "C11", format!("step {}: block captures evaluated before the cancellation {:?} are not a prefix of the model's {:?}", k, oc, exp_caps));
         }
     }
-    if !hung {
+    if !hung || cancelled {
         for (key, c) in obs_calls {
             note(&mut v, "C10", format!("step {} branch {}: callbacks {:?} invoked but the model expects that step not to run", key.0, key.1, c.iter().map(|c| c.0).collect::<Vec<_>>()));
         }
